@@ -51,7 +51,11 @@ def one_case(ctx, res, stream, files, verbose=False, preexisting=None, missing_a
     loc = "missing" if missing_at is not None else locate_overflow(contents)
     case = {"sizes": [len(c) for c in contents], "enc_size": enc, "overflow_at": loc, "preexisting": None if preexisting is None else len(preexisting), "missing_at": missing_at}
     st.see(case, nontrivial=True)
-    st.compared += 1
+    if mo is None:
+        st.unmodelled += 1
+        mo = {"status": status, "out": out, "writes": [("t.k7", tape)] if status == "ok0" and tape is not None else []}     # nothing to compare with
+    else:
+        st.compared += 1
     res.count(f"where={loc}")
     res.count(f"enc-21504={max(-9, min(9, enc - 21504))}")
     if int(ans[2]) != enc:
@@ -113,6 +117,10 @@ def refused_case(ctx, res, kind, position, verbose):
         arc, bad, bad_path = os.path.join(d, "notes.bin"), "notes.bin", "notes.bin"
     elif kind in ("is_archive_symlink", "is_archive_hardlink"):
         arc, bad, bad_path = "notes.bin", "alias.dat", "notes.bin"
+    elif kind == "is_archive_through_parent":
+        # out of the working directory and back in through its name: the same place, which only a resolution against the
+        # working directory shows (the model's lexical comparison does not know it: oracle only)
+        arc, bad, bad_path = "notes.bin", f"../{os.path.basename(d)}/notes.bin", "notes.bin"
     else:  # the ,a option is not part of the path
         arc, bad, bad_path = "prog.bas", "prog.bas,a", "prog.bas"
     files = list(ordinary)
@@ -128,7 +136,7 @@ def refused_case(ctx, res, kind, position, verbose):
     if kind == "is_archive_hardlink":
         os.link(os.path.join(d, "notes.bin"), os.path.join(d, "alias.dat"))
     # a relative and an absolute spelling of one place, and links, are outside the model's lexical comparison (DESIGN S3): oracle only
-    unmodelled = kind in ("is_archive_abs_vs_relative", "is_archive_relative_vs_abs", "is_archive_symlink", "is_archive_hardlink")
+    unmodelled = kind in ("is_archive_abs_vs_relative", "is_archive_relative_vs_abs", "is_archive_symlink", "is_archive_hardlink", "is_archive_through_parent")
     srcs = [n for n, _ in files]
     before = T.snapshot(d)
     status, out = T.tar(["-c"] + (["-v"] if verbose else []) + [arc] + srcs, cwd=d)
@@ -192,6 +200,30 @@ def odd_source_case(ctx, res, kind, position, verbose):
     if tape is None or len(tape) != 21504 or dec is None:
         res.violate("odd_source", "status 0 with an archive that is not a well-formed tape of the files it reports", case,
                     {"len": None if tape is None else len(tape), "out": out[-300:]}, {"clause": "complete", "kind": kind})
+
+
+def unwritable_target_case(ctx, res, kind):
+    """the archive cannot be written where it is designated (its directory does not exist, its name is a directory's, a component of
+    its path is a file): the creation fails with a non-zero status and nothing at all is created or modified — all or nothing also
+    here (the model's world has no directories: oracle only)"""
+    st = res.stream("unwritable_target")
+    d = ctx.fresh_dir()
+    with open(os.path.join(d, "a.bas"), "wb") as f:
+        f.write(b"10 REM\r")
+    os.makedirs(os.path.join(d, "adir.k7"))
+    arc = {"absent_directory": "nodir/t.k7", "absent_directory_dotdot": "nodir/../t2.k7", "is_a_directory": "adir.k7", "file_as_directory": "a.bas/t.k7", "empty_name": ""}[kind]
+    before = T.snapshot(d)
+    dirs_before = sorted(x for x in os.listdir(d))
+    status, out = T.tar(["-c", arc, "a.bas"], cwd=d)
+    after = T.snapshot(d)
+    case = {"kind": kind, "archive": arc}
+    st.see(case, nontrivial=True)
+    st.unmodelled += 1
+    res.count(f"unwritable_target:{kind}:{status}")
+    if status == "ok0":
+        res.violate("unwritable_target", "status 0 although the archive could not be written", case, out, {"clause": "unwritable_status"})
+    if after != before or sorted(os.listdir(d)) != dirs_before:
+        res.violate("unwritable_target", "a failed creation created or modified something", case, sorted(set(after) ^ set(before)), {"clause": "all_or_nothing", "kind": kind})
 
 
 def tuned(rng, target, nfiles, tune_index):
@@ -268,10 +300,12 @@ def run(ctx, res):
     res.sample({"missing_at": 0, "files": 1})
     # refused sources (F26, F27) at every position
     for kind in ("is_archive_plain", "is_archive_dotslash", "is_archive_dotslash_src", "is_archive_abs", "is_archive_bas_a", "is_archive_bas_A",
-                 "is_archive_abs_vs_relative", "is_archive_relative_vs_abs", "is_archive_symlink", "is_archive_hardlink", "not_ascii_name", "not_ascii_ext",
+                 "is_archive_abs_vs_relative", "is_archive_relative_vs_abs", "is_archive_symlink", "is_archive_hardlink", "is_archive_through_parent", "not_ascii_name", "not_ascii_ext",
                  "not_ascii_ext_only"):
         for position in range(4):
             refused_case(ctx, res, kind, position, verbose=(position % 2 == 1))
     for kind in ("directory", "directory_no_dot", "dangling_link"):
         for position in range(4):
             odd_source_case(ctx, res, kind, position, verbose=(position % 2 == 0))
+    for kind in ("absent_directory", "absent_directory_dotdot", "is_a_directory", "file_as_directory", "empty_name"):
+        unwritable_target_case(ctx, res, kind)
